@@ -499,8 +499,188 @@ def check_unpackinfo_read(ctx, rep, rng, tier):
     return cnt
 
 
-READER_PARTS = [check_packinfo_read, check_small_functions, check_folder, check_unpackinfo_read]
-WRITER_PARTS = [check_packinfo_write, check_small_functions, check_folder, check_unpackinfo_write]
+# ------------------------------------------------------------------ SubstreamsInfo, Folder.get_unpack_size
+def sub_state(o):
+    return [list(o.digests), [bool(x) for x in o.digestsdefined], [] if o.unpacksizes is None else [list(o.unpacksizes)],
+            list(o.num_unpackstreams_folders)]
+
+
+def sub_from_state(st):
+    o = ai.SubstreamsInfo()
+    o.digests, o.digestsdefined = list(st[0]), list(st[1])
+    o.unpacksizes = list(st[2][0]) if st[2] else None
+    o.num_unpackstreams_folders = list(st[3])
+    return o
+
+
+def norm_sub_tree(t):
+    return [t[0], [x == 1 for x in t[1]], t[2], t[3]]
+
+
+def rnd_sub(rng, nfolders, consistent=True):
+    nums = [rng.choice([0, 1, 1, 1, 2, 3, 5]) for _ in range(nfolders)]
+    if not consistent and nums and rng.random() < 0.3:
+        nums[rng.randrange(len(nums))] = rng.choice([-1, -2, 1 << 64])
+    total = sum(n for n in nums if 0 < n < 100)
+    sizes = [rnd_u(rng) for _ in range(total)]
+    dd = [rng.random() < 0.6 for _ in range(total)]
+    if rng.random() < 0.2:
+        dd = [False] * total
+    dg = [rng.getrandbits(32) if d else 0 for d in dd]
+    st = [dg, dd, [sizes] if rng.random() < 0.85 else [], nums]
+    if not consistent:
+        k = rng.randrange(5)
+        if k == 0 and sizes:
+            st[2] = [sizes[:rng.randrange(len(sizes))]]
+        elif k == 1:
+            st[0] = dg[:rng.randrange(len(dg) + 1)] + ([rng.choice([-1, 1 << 32])] if rng.random() < 0.5 else [])
+        elif k == 2 and sizes:
+            sizes[rng.randrange(len(sizes))] = rng.choice([-1, 1 << 64])
+        elif k == 3:
+            st[1] = dd + [True]
+    return st
+
+
+def check_substreams_write(ctx, rep, rng, tier):
+    if not available(ctx, "gen_SubstreamsInfo_write"):
+        return 0
+    model = ctx["model"]
+    cnt = 0
+    for i in range(600 if tier == "quick" else 20000):
+        st = rnd_sub(rng, rng.choice([0, 1, 1, 2, 3, 4]), consistent=(i % 3 != 0))
+        buf = io.BytesIO()
+        try:
+            sub_from_state(st).write(buf)
+            want = [0, list(buf.getvalue())]
+        except Exception as e:  # noqa
+            want = [1, err_code(e)]
+        got = model.call("gen_SubstreamsInfo_write", st)
+        cnt += 1
+        rep.dist("translation_SubstreamsInfo_write", "ok" if want[0] == 0 else "err%d" % want[1])
+        if got != want:
+            _violation(rep, "the function translated from SubstreamsInfo.write disagrees with the Python on the object %r: "
+                            "generated %r, Python %r" % (st, got, want), {"object": st}, "SubstreamsInfo.write")
+            return cnt
+    return cnt
+
+
+def substreams_input_ok(bs, numfolders):
+    """counts that become loop bounds in SubstreamsInfo._read stay small"""
+    f = io.BytesIO(bs)
+    try:
+        if f.read(1) == b"\x0d":
+            tot = 0
+            for _ in range(numfolders):
+                tot += _num(f, 3000)
+    except _TooBig:
+        return False
+    except Exception:  # noqa
+        pass
+    return True
+
+
+def check_substreams_read(ctx, rep, rng, tier):
+    if not available(ctx, "gen_SubstreamsInfo_retrieve"):
+        return 0
+    model = ctx["model"]
+    cnt = 0
+    cases = []
+    one = rnd_folder(random_fixed(1))
+    for bs in [b"", b"\x00", b"\x0d", b"\x09\x00", b"\x0a\x00", b"\x0d\x02\x09\x05\x00", b"\x0d\x02\x09\x05\x0a\x01\x11\x22\x33\x44\x55\x66\x77\x88\x00Z",
+               b"\x0d\x00\x00", b"\x0d\x00\x09\x00", b"\x0a\x01\x00", b"\x0a\x00\x80\x01\x02\x03\x04\x00", b"\x01"]:
+        cases.append((bs, 1, [one]))
+        cases.append((bs, 0, []))
+    for i in range(500 if tier == "quick" else 15000):
+        nf = rng.choice([0, 1, 1, 2, 3, 4])
+        folders = [rnd_folder(rng) for _ in range(nf)]
+        for fo in folders:
+            fo[5] = rng.random() < 0.5
+            fo[6] = [rng.getrandbits(32)] if fo[5] and rng.random() < 0.9 or rng.random() < 0.2 else []
+            if rng.random() < 0.05:
+                fo[0] = []
+        st = rnd_sub(rng, nf)
+        buf = io.BytesIO()
+        try:
+            sub_from_state(st).write(buf)
+        except Exception:  # noqa
+            continue
+        body = buf.getvalue()[1:] + bytes(rng.randrange(256) for _ in range(rng.choice([0, 0, 2])))
+        numfolders = nf if rng.random() < 0.9 else nf + rng.choice([-1, 1])
+        cases.append((body, numfolders, folders))
+        cases.append((mutate(rng, body), numfolders, folders))
+        cases.append((mutate(rng, mutate(rng, body)), nf, folders))
+    for bs, numfolders, folders in cases:
+        if not substreams_input_ok(bs, numfolders):
+            continue
+        f = io.BytesIO(bs)
+        try:
+            o = ai.SubstreamsInfo.retrieve(f, numfolders, [folder_from_state(x) for x in folders])
+            want = [0, [sub_state(o), list(f.read())]]
+        except (MemoryError, OverflowError):
+            continue
+        except Exception as e:  # noqa
+            want = [1, err_code(e)]
+        got = model.call("gen_SubstreamsInfo_retrieve", [list(bs), numfolders, folders])
+        if got[0] == 0:
+            got = [0, [norm_sub_tree(got[1][0]), got[1][1]]]
+        cnt += 1
+        rep.dist("translation_SubstreamsInfo_read", ("" if numfolders == len(folders) else "count-differs-") + ("ok" if want[0] == 0 else "err%d" % want[1]))
+        if got != want:
+            _violation(rep, "the function translated from SubstreamsInfo._read disagrees with the Python on %s (numfolders %d, folders %r): "
+                            "generated %r, Python %r" % (bs.hex(), numfolders, folders, got, want),
+                       {"input": bs.hex(), "numfolders": numfolders, "folders": folders}, "SubstreamsInfo._read")
+            return cnt
+    return cnt
+
+
+def random_fixed(seed):
+    import random
+    return random.Random(seed)
+
+
+def check_substreams_default(ctx, rep, rng, tier):
+    if not available(ctx, "gen_SubstreamsInfo_default"):
+        return 0
+    model = ctx["model"]
+    cnt = 0
+    for i in range(300 if tier == "quick" else 8000):
+        folders = [rnd_folder(rng, consistent=rng.random() < 0.8) for _ in range(rng.choice([0, 1, 1, 2, 3, 5]))]
+        for fo in folders:
+            fo[5] = rng.random() < 0.6
+            fo[6] = [rng.getrandbits(32)] if rng.random() < 0.7 else []
+            if rng.random() < 0.1:
+                fo[0] = []
+        pf = [folder_from_state(x) for x in folders]
+        try:
+            want = [0, sub_state(ai.SubstreamsInfo.default(pf))]
+        except Exception as e:  # noqa
+            want = [1, err_code(e)]
+        got = model.call("gen_SubstreamsInfo_default", folders)
+        if got[0] == 0:
+            got = [0, norm_sub_tree(got[1])]
+        cnt += 1
+        if got != want:
+            _violation(rep, "the function translated from SubstreamsInfo.default disagrees with the Python on the folders %r: "
+                            "generated %r, Python %r" % (folders, got, want), {"folders": folders}, "SubstreamsInfo.default")
+            return cnt
+        for fo, p in zip(folders, pf):
+            try:
+                want = [0, p.get_unpack_size()]
+            except Exception as e:  # noqa
+                want = [1, err_code(e)]
+            got = model.call("gen_Folder_get_unpack_size", fo)
+            cnt += 1
+            rep.dist("translation_get_unpack_size", "ok" if want[0] == 0 else "err%d" % want[1])
+            if got != want:
+                _violation(rep, "the function translated from Folder.get_unpack_size disagrees with the Python on the folder %r: "
+                                "generated %r, Python %r" % (fo, got, want), {"folder": fo}, "Folder.get_unpack_size")
+                return cnt
+    return cnt
+
+
+READER_PARTS = [check_packinfo_read, check_small_functions, check_folder, check_unpackinfo_read, check_substreams_read,
+                check_substreams_default]
+WRITER_PARTS = [check_packinfo_write, check_small_functions, check_folder, check_unpackinfo_write, check_substreams_write]
 
 
 def _run(ctx, rep, rng, tier, parts, label):
